@@ -121,7 +121,7 @@ func crtDecrypt(p, q, c *big.Int) *big.Int {
 }
 
 func runC14(r *Run, rng *rand.Rand, thorough bool) {
-	r.Rule = "exact ops: Paillier encrypt (x scripted), HomoMult, HomoAdd, Decrypt, key proof and its verifier vs the Lean model; non-trivial = distinct op line with in-domain arguments; direct assertions: dec(enc m)=m, CRT decryption agrees, homomorphic laws, units, freshness, domain refusals, generated key shape"
+	r.Rule = "exact ops: Paillier encrypt (x scripted), HomoMult, HomoAdd, Decrypt, key proof and its verifier vs the Lean model; non-trivial = distinct op line with in-domain arguments; direct assertions: dec(enc m)=m, CRT decryption agrees, homomorphic laws, units (also when the entropy source first serves 0, P, Q, 2P), freshness, domain refusals, generated key shape"
 	type key struct {
 		sk   *paillier.PrivateKey
 		name string
@@ -204,6 +204,38 @@ func runC14(r *Run, rng *rand.Rand, thorough bool) {
 			// fresh randomness gives a fresh ciphertext
 			g2, _, _ := r.Do("paillier.Encrypt/"+k.name, true, "pai_encrypt", sN, eInt(m), eInt(unit()))
 			r.Assert(g2 != g, "paillier.Encrypt/fresh", "fresh-ciphertext-per-call", nil)
+		}
+		// the randomness of an encryption is a unit whatever the entropy source hands out first: candidates that
+		// are 0 or share a factor with N are passed over
+		if sk.P != nil && sk.Q != nil {
+			x := unit()
+			cands := []*big.Int{bi(0), new(big.Int).Set(sk.P), new(big.Int).Set(sk.Q), new(big.Int).Mod(new(big.Int).Lsh(sk.P, 1), N), x}
+			cr := &coinReader{}
+			for _, cnd := range cands {
+				cr.push(cnd, N.BitLen())
+			}
+			m := msgs[3]
+			var c, gx *big.Int
+			res := guard(func() string {
+				var err error
+				c, gx, err = sk.PublicKey.EncryptAndReturnRandomness(cr, m)
+				if err != nil {
+					return "err " + err.Error()
+				}
+				return ""
+			})
+			r.Evals++
+			okc := res == "" && gx != nil && new(big.Int).GCD(nil, nil, gx, N).Cmp(bi(1)) == 0 && gx.Cmp(x) == 0 &&
+				new(big.Int).GCD(nil, nil, c, N2).Cmp(bi(1)) == 0
+			r.Assert(okc, "paillier.Encrypt/non-unit-candidates", "randomness-and-ciphertext-are-units", func() string {
+				return fmt.Sprintf("entropy source serves 0, P, Q, 2P, then the unit %s: %s x=%v", eInt(x), res, gx)
+			})
+			if okc {
+				gm, _, _ := r.Do("common.GetRandomPositiveRelativelyPrimeInt/paillier", true, "sample_relprime", sN, eInts(cands))
+				r.Assert(gm == "ok "+eInt(x), "paillier.Encrypt/sampler", "sampler-skips-non-units", func() string { return gm })
+				gd, _, _ := r.Do("paillier.Decrypt/"+k.name, true, "pai_decrypt", sN, sL, sPhi, eInt(c))
+				r.Assert(gd == "ok "+eInt(m), "paillier.Decrypt/roundtrip", "dec(enc(m))=m", func() string { return eInt(m) + " -> " + gd })
+			}
 		}
 		// homomorphic laws
 		for i := 0; i+1 < len(cts); i++ {
